@@ -106,6 +106,7 @@ func NewReport(property string) *Report {
 	if tier != "thorough" {
 		tier = "quick"
 	}
+	startProfile()
 	seed, _ := strconv.ParseInt(os.Getenv("VERIF_SEED"), 10, 64)
 	debug.SetTraceback("all")
 	if os.Getenv("GOGC") == "" {
@@ -291,6 +292,7 @@ func LoadReplay(path string) (Replay, error) {
 
 // Finish writes evidence, replay files, prints KNOWN-FINDING / VIOLATION lines and exits.
 func (r *Report) Finish() {
+	stopProfile()
 	root := Root()
 	known := LoadFindings(filepath.Join(root, "KNOWN_FINDINGS.txt"), r.Property)
 	knownSet := map[string]KnownFinding{}
@@ -423,6 +425,25 @@ func HarnessError(format string, a ...any) {
 }
 
 // TopFrame extracts from a stack trace the first function inside go-mc (below the panic machinery).
+// topFrameOfPanic: the innermost go-mc function on the stack of the panic being recovered (called from the deferred
+// function of Guard). It reads the frames with runtime.Callers: debug.Stack() formats the whole stack under the
+// runtime's global print lock, which serialises 16 workers when a check provokes millions of expected panics.
+func topFrameOfPanic() string {
+	var pcs [96]uintptr
+	n := runtime.Callers(3, pcs[:])
+	frames := runtime.CallersFrames(pcs[:n])
+	for {
+		fr, more := frames.Next()
+		if strings.HasPrefix(fr.Function, "github.com/Tnze/go-mc/") {
+			return strings.TrimPrefix(fr.Function, "github.com/Tnze/go-mc/")
+		}
+		if !more {
+			return "unknown"
+		}
+	}
+}
+
+// TopFrame extracts the same from a formatted stack dump (kept for stacks that arrive as text).
 func TopFrame(stack []byte) string {
 	lines := strings.Split(string(stack), "\n")
 	for _, l := range lines {
@@ -487,7 +508,7 @@ func Guard(f func()) (kind, frame string, panicked bool) {
 				panic(de)
 			}
 			kind = PanicKind(v)
-			frame = TopFrame(debug.Stack())
+			frame = topFrameOfPanic()
 			panicked = true
 		}
 	}()
